@@ -93,6 +93,9 @@ def plan(tier, seed):
         units.append({"kind": "coord", "start": s, "stop": min(n, s + step), "w": step * 1.0})
     for s in range(0, m, 4):
         units.append({"kind": "limits", "start": s, "stop": min(m, s + 4), "w": 4 * 2.0})
+    k = 60 if tier == "quick" else 1000
+    for s in range(0, k, 10):
+        units.append({"kind": "intarr", "start": s, "stop": min(k, s + 10), "w": 10.0})
     return units
 
 
@@ -129,6 +132,17 @@ def ref_nb(tr):
     a, b, c = tr[:, 0], tr[:, 1], tr[:, 2]
     return np.concatenate([tr, np.stack([mirror(a, b, c), b, c], axis=1), np.stack([a, mirror(b, c, a), c], axis=1),
                            np.stack([a, b, mirror(c, a, b)], axis=1)], axis=0)
+
+
+def edge_reflection_defined(tr):
+    """The statement's "edge-reflected neighbour" and the parallelogram completion b + c - a used by lattice code coincide only
+    for triangles symmetric about every edge's perpendicular bisector (the equilateral lattice triangles of the quantifier).
+    For arbitrary user-given triangles the law is not claimed."""
+    a, b, c = tr[:, 0], tr[:, 1], tr[:, 2]
+    size = float(np.sqrt(max(areas(tr).mean(), 1e-300)))
+    d = max(np.abs(mirror(a, b, c) - (b + c - a)).max(), np.abs(mirror(b, c, a) - (c + a - b)).max(),
+            np.abs(mirror(c, a, b) - (a + b - c)).max())
+    return bool(d <= 1e-6 * size)
 
 
 def vertex_keys(point_arrays, tol):
@@ -223,6 +237,8 @@ def post_up(ctx, a, result, old):
 def post_nb(ctx, a, result, old):
     tr = tri(a["self"])
     if not _finite(tr) or tr.shape[0] > 4000:
+        return None
+    if not edge_reflection_defined(tr):
         return None
     got = tri(result)
     return (same_set(got, ref_nb(tr)), {"triangles": tr, "got_neighbourhood": got})
@@ -339,7 +355,11 @@ def check_level(ctx, pre, T, rng, npoints, deep):
         ctx.check(gl == n and ctx.close(ga, A0, 1e-9, scale=max(A0, 1e-300)), pre + ":area.matches_geometry",
                   triangles=tr, own_area=A0, got_area=ga, got_len=gl)
     # --- neighbourhood (results are materialised inside the guard: their triangles are computed lazily)
-    ok, nbt = ctx.guarded(pre + ":neighborhood.set", lambda: tri(T.neighborhood()))
+    if not edge_reflection_defined(tr):
+        ctx.skipped["neighbourhood_of_non_equilateral_triangles(not_claimed)"] += 1
+        ok = False
+    else:
+        ok, nbt = ctx.guarded(pre + ":neighborhood.set", lambda: tri(T.neighborhood()))
     if ok:
         ctx.check(same_set(nbt, ref_nb(tr)), pre + ":neighborhood.set", triangles=tr, expected=lambda: ref_nb(tr), got=nbt)
     # --- selection
@@ -504,5 +524,36 @@ def run_limits(ctx, u):
                                  "triangles": n, "depth": depth})
 
 
+def run_intarr(ctx, u):
+    """ArrayTriangles built directly from vertex arrays as a user would pass them: integer-typed lattice points (odd and even
+    edge extents, so that midpoints are half-integers) as well as their float twins."""
+    for i in range(u["start"], u["stop"]):
+        if not ctx.begin("intarr:%d" % i):
+            continue
+        rng = gen.rng_for(ctx.seed, NO, 3, i)
+        nv = int(rng.integers(3, 9))
+        V = np.unique(rng.integers(-9, 10, size=(nv, 2)), axis=0)
+        tris = []
+        for _ in range(40):
+            if len(V) < 3 or len(tris) >= 5:
+                break
+            a, b, c = rng.choice(len(V), size=3, replace=False)
+            area2 = (V[b, 0] - V[a, 0]) * (V[c, 1] - V[a, 1]) - (V[b, 1] - V[a, 1]) * (V[c, 0] - V[a, 0])
+            if area2 != 0 and tuple(sorted((int(a), int(b), int(c)))) not in {tuple(sorted(t)) for t in tris}:
+                tris.append((int(a), int(b), int(c)))
+        if not tris:
+            ctx.skipped["intarr:no_non_degenerate_triangle"] += 1
+            continue
+        idx = np.array(tris, dtype=int)
+        as_int = (i % 3 != 2)
+        verts = V.astype(np.int64) if as_int else V.astype(float)
+        ok, A = ctx.guarded("array_direct:construct", ctx.AT, indices=idx.copy(), vertices=verts.copy())
+        if not ok:
+            continue
+        run_set(ctx, "array", A, False, rng, 2, npoints=3)
+        ctx.case("intarr", V, idx, as_int, nontrivial=True, cls=["array_direct", "vertices_int_dtype" if as_int else "vertices_float_dtype"],
+                 sample=lambda: {"kind": "vertex-array set", "vertices": V.tolist(), "indices": idx.tolist(), "dtype": str(verts.dtype)})
+
+
 def run_unit(ctx, u):
-    {"coord": run_coord, "limits": run_limits}[u["kind"]](ctx, u)
+    {"coord": run_coord, "limits": run_limits, "intarr": run_intarr}[u["kind"]](ctx, u)
